@@ -250,8 +250,9 @@ fn longest_magic() -> usize {
 }
 
 /// Read up to `want` leading bytes, looping over short reads; stops early at the end of the
-/// stream or at the first error (which the caller's next read will see again).
-fn read_head<R: Read>(reader: &mut R, want: usize) -> Vec<u8> {
+/// stream. `Interrupted` is retried; any other error is returned to the caller (a transient
+/// error must not leave detection looking at a partial signature).
+fn read_head<R: Read>(reader: &mut R, want: usize) -> IoResult<Vec<u8>> {
     let mut head = vec![0u8; want];
     let mut len = 0;
     while len < want {
@@ -259,11 +260,11 @@ fn read_head<R: Read>(reader: &mut R, want: usize) -> Vec<u8> {
             Ok(0) => break,
             Ok(n) => len += n,
             Err(e) if e.kind() == ErrorKind::Interrupted => {}
-            Err(_) => break,
+            Err(e) => return Err(e),
         }
     }
     head.truncate(len);
-    head
+    Ok(head)
 }
 
 /// Automatically detect and wrap a reader with decompression if needed.
@@ -305,7 +306,8 @@ pub fn auto_detect_reader<R: Read + 'static>(
     // signature (pipes, sockets, chained readers), so collect enough leading bytes for the
     // longest registered signature first and put them back in front of the stream.
     let mut reader = reader;
-    let head = read_head(&mut reader, longest_magic());
+    let head = read_head(&mut reader, longest_magic())
+        .context("read the leading bytes for compression detection")?;
     let mut buf_reader = BufReader::new(Cursor::new(head).chain(reader));
     if let Some(codec) = detect_from_magic(&mut buf_reader) {
         return codec
